@@ -8,16 +8,16 @@ open Py
 
 theorem dtd_attribute_faithful_core (d : DtdAttrDecl) (hwf : d.wf = true) (x : Option Str) (hx : d.allows x) :
     readAttr (dtdAttrField d) x = some (d.normalized x) := by
-  obtain ⟨k, v⟩ := d
-  cases k <;> cases v <;> cases x <;>
+  obtain ⟨k, v, t⟩ := d
+  cases k <;> cases v <;> cases t <;> cases x <;>
     simp_all [DtdAttrDecl.wf, DtdAttrDecl.allows, DtdAttrDecl.normalized, dtdAttrField, dtdAttr, fieldOf, sanitize,
       shouldResetRequired, shouldResetDefault, GAttr.isList, readAttr]
 
 theorem dtd_attribute_required_core (d : DtdAttrDecl) (hwf : d.wf = true) (f : Field)
     (h : dtdAttrField d = some f)
     (hm : f.default = .missing) : d.default = .required ∧ ¬ d.allows none := by
-  obtain ⟨k, v⟩ := d
-  cases k <;> cases v <;>
+  obtain ⟨k, v, t⟩ := d
+  cases k <;> cases v <;> cases t <;>
     simp_all [DtdAttrDecl.wf, DtdAttrDecl.allows, dtdAttrField, dtdAttr, fieldOf, sanitize,
       shouldResetRequired, shouldResetDefault, GAttr.isList] <;> (subst h; simp at hm)
 
